@@ -156,7 +156,8 @@ func (w *c08World) step() {
 		f, err := w.read()
 		if w.canRead() {
 			vf.Reach("abnormal-closure")
-			vf.Assert("eof-surfaces-as-1006", vf.All(err == io.EOF, f != nil, f.Opcode() == OpcodeClose, f.PayloadLength() == 2,
+			vf.Assert("eof-surfaces-as-a-close-frame", vf.All(err == io.EOF, f != nil, len(f) >= 4))
+			vf.Assert("eof-surfaces-as-1006", vf.All(f.Opcode() == OpcodeClose, f.PayloadLength() == 2,
 				int(f.Payload()[0])<<8|int(f.Payload()[1]) == 1006))
 			w.state = StateTerminated
 		} else {
